@@ -53,6 +53,11 @@ func Compose[A, B, C any](f func(A) B, g func(B) C) func(A) C { return nil }
 func Fold[T, A any](xs []T, init A, f func(A, T) A) A  { return init }
 func SumS[S ~[]E, E ~int | ~float64](s S) E            { var z E; return z }
 func App[S ~[]E, E any](s S, e ...E) S                 { return s }
+func Mk[R, A any](a A) R                               { var z R; return z }
+func Pick3[R, Q, A any](a A, q Q) R                    { var z R; return z }
+func Use(f func(int) string)                           {}
+func Use2(f func(int, bool) string)                    {}
+func UseG[T any](f func(T) string, x T)                {}
 
 var (
 	vi   int
@@ -94,7 +99,7 @@ var genericFns = []genericFn{
 	{"Id", 1, 1, false}, {"MkMap", 2, 2, false}, {"Sum", 1, 0, true}, {"Max", 1, 2, false}, {"Map", 2, 2, false}, {"Filter", 2, 2, false},
 	{"Keys", 3, 1, false}, {"Apply", 1, 1, true}, {"Deref", 1, 1, false}, {"Recv", 1, 1, false}, {"Conv", 2, 1, false}, {"Str", 1, 1, false},
 	{"Num", 1, 1, false}, {"Zero", 1, 0, false}, {"Nested", 1, 1, false}, {"Two", 1, 2, false}, {"Cmp", 1, 2, false}, {"Wrap", 1, 1, false},
-	{"Unwrap", 1, 1, false}, {"Compose", 3, 2, false}, {"Fold", 2, 3, false}, {"SumS", 2, 1, false}, {"App", 2, 1, true},
+	{"Unwrap", 1, 1, false}, {"Compose", 3, 2, false}, {"Fold", 2, 3, false}, {"SumS", 2, 1, false}, {"App", 2, 1, true}, {"Mk", 2, 1, false}, {"Pick3", 3, 2, false},
 }
 
 var genericArgs = []string{
@@ -145,6 +150,27 @@ func GenericProgram(t *rapid.T) (src string, feats []string) {
 			feats = append(feats, "partial-inst-function-arg")
 		default:
 			stmt = "var g func([]float64) float64 = " + inst + "\n\t_ = g"
+			feats = append(feats, "assign-to-typed-func-var")
+		}
+		return GenericPrelude + fmt.Sprintf("func f() {\n\t%s\n}\n", stmt), feats
+	}
+	if rapid.IntRange(0, 11).Draw(t, "result-only-scenario") == 0 {
+		// Partial instantiation whose explicit type argument occurs only in the result: the remaining
+		// type parameters follow from the parameter types of the function type the value is used as.
+		feats = append(feats, "explicit-partial", "partial-result-only-type-arg")
+		inst := pick("rfn", []string{"Mk[string]", "Mk[int]", "Mk[string, int]", "Pick3[string]", "Pick3[string, bool]", "Pick3[string, int]", "Mk[N]"})
+		var stmt string
+		switch rapid.IntRange(0, 3).Draw(t, "rform") {
+		case 0:
+			stmt = pick("ruse", []string{"Use", "Use2"}) + "(" + inst + ")"
+			feats = append(feats, "partial-inst-arg-of-plain-func")
+		case 1:
+			stmt = "UseG(" + inst + ", " + pick("rarg", []string{"vi", "1", "vs", "vb"}) + ")"
+			feats = append(feats, "partial-inst-function-arg")
+		case 2:
+			stmt = "r := " + inst + "(" + pick("rarg", []string{"vi", "1", "vs", "vb, true", "vi, vb"}) + ")\n\t_ = r"
+		default:
+			stmt = "var g " + pick("rft", []string{"func(int) string", "func(int, bool) string", "func(string) int"}) + " = " + inst + "\n\t_ = g"
 			feats = append(feats, "assign-to-typed-func-var")
 		}
 		return GenericPrelude + fmt.Sprintf("func f() {\n\t%s\n}\n", stmt), feats
